@@ -74,7 +74,8 @@ def neighbours(rng, shape, rows, bounded, k):
 def gen_config(rng, mech, attrs, shape):
     eps = float(gen.pick(rng, [0.1, 1.0, 10.0]))
     delta = float(gen.pick(rng, [1e-9, 1e-6, 1e-3]))
-    cfg = dict(mech=mech, eps=eps, delta=delta, bounded=False, accounting='zcdp')
+    # a Domain built from an array (df.max() + 1) carries numpy integers as sizes; one built from json carries ints
+    cfg = dict(mech=mech, eps=eps, delta=delta, bounded=False, accounting='zcdp', np_sizes=bool(rng.rand() < 0.3))
     pairs = list(itertools.combinations(attrs, 2))
     if mech == 'aim':
         if rng.rand() < 0.5:
@@ -146,7 +147,7 @@ class Harness:
         """One execution.  Returns dict(events, output (ndarray of records or None), error, domain_ok)."""
         import pandas as pd
         m = models.mbi()
-        dom = m.Domain(list(attrs), list(shape))
+        dom = m.Domain(list(attrs), [np.int64(s_) for s_ in shape] if cfg.get('np_sizes') else [int(s_) for s_ in shape])
         df = pd.DataFrame(np.asarray(rows).reshape(-1, len(attrs)), columns=list(attrs)).astype(int)
         data = m.Dataset(df, dom)
         mon = self.mon
